@@ -179,10 +179,15 @@ func (c *Cond) Broadcast() {
 	c.waiters = nil
 }
 
-// WaitGroup mirrors sync.WaitGroup.
+// WaitGroup mirrors sync.WaitGroup, including the two misuse panics of the runtime: a negative
+// counter, and a counter that is raised again after a blocked Wait was released but before it
+// returned ("WaitGroup is reused before previous Wait has returned").
 type WaitGroup struct {
-	n int
+	n       int
+	waiters []*wgWaiter
 }
+
+type wgWaiter struct{ released bool }
 
 func (wg *WaitGroup) Add(delta int) {
 	Yield("wg-add")
@@ -190,12 +195,27 @@ func (wg *WaitGroup) Add(delta int) {
 	if wg.n < 0 {
 		panic("sync: negative WaitGroup counter")
 	}
+	if wg.n == 0 {
+		for _, w := range wg.waiters {
+			w.released = true
+		}
+		wg.waiters = nil
+	}
 }
 
 func (wg *WaitGroup) Done() { wg.Add(-1) }
 
 func (wg *WaitGroup) Wait() {
-	block("wg-wait", "a WaitGroup", func() bool { return wg.n == 0 })
+	Yield("wg-wait")
+	if wg.n == 0 {
+		return
+	}
+	w := &wgWaiter{}
+	wg.waiters = append(wg.waiters, w)
+	block("wg-wait", "a WaitGroup", func() bool { return w.released })
+	if wg.n != 0 {
+		panic("sync: WaitGroup is reused before previous Wait has returned")
+	}
 }
 
 // Once mirrors sync.Once.
